@@ -5,6 +5,8 @@
  *
  * Obligation, for the LAST header the function parsed (hdr), when that parse succeeded and the page
  * type was accepted:
+ *   (the function may stop before the CRC site with a non-CRC error -- offset/size/count validation,
+ *    seek, allocation, short read -- having checksummed, decompressed, decoded and returned nothing)
  *   has_crc && verify_checksums  =>  carquet_crc32 called exactly once, over exactly the
  *       compressed_page_size bytes that follow the header (mmap: header_ptr+header_size; fread: the
  *       buffer just filled by a complete fread of that many bytes at offset+header_size)
@@ -47,8 +49,12 @@ static void pg_c14_check(pg_env_t *e, carquet_status_t st, bool is_mmap, int whi
   bool accepted = g_parse_calls >= 1 && g_parse_ret == CARQUET_OK &&
                   (which == 0 ? g_hdr.type == CARQUET_PAGE_DICTIONARY
                               : (g_hdr.type == CARQUET_PAGE_DATA || g_hdr.type == CARQUET_PAGE_DATA_V2));
-  if (accepted && g_hdr.has_crc && verify && (is_mmap || g_crc_calls > 0 || st == CARQUET_OK)) {
-    /* fread paths may legitimately stop before the CRC site (seek/alloc/short read) with another error */
+  bool must_verify = accepted && g_hdr.has_crc && verify;
+  /* every path may legitimately stop before the CRC site with another error (offset / size / count
+   * validation, seek, allocation, short read) -- but then nothing was checksummed, decompressed,
+   * decoded or returned */
+  bool progressed = g_crc_calls > 0 || st == CARQUET_OK || g_decomp_calls > 0 || g_dict_calls > 0 || g_data_calls > 0;
+  if (must_verify && progressed) {
     __CPROVER_assert(g_crc_calls == 1, "C14: checksum computed exactly once for a page that carries one");
     __CPROVER_assert(g_crc_len == (size_t)(int64_t)g_hdr.compressed_page_size, "C14: checksum covers exactly compressed_page_size bytes");
     if (is_mmap) {
@@ -71,7 +77,7 @@ static void pg_c14_check(pg_env_t *e, carquet_status_t st, bool is_mmap, int whi
     }
   } else {
     __CPROVER_assert(st != CARQUET_ERROR_CRC_MISMATCH, "C14: no CRC error without a verified, mismatching checksum");
-    if (accepted && !(g_hdr.has_crc && verify)) {
+    if (accepted && !must_verify) {
       __CPROVER_assert(g_crc_calls == 0, "C14: no checksum computed when absent or disabled");
       CQV_CANARY("C14 verification-off case reached");
     }
@@ -112,7 +118,7 @@ static void h_page(bool is_mmap) {
     pg_c14_check(&e, st, is_mmap, 1, off, &before);
   } else {
     /* stopped before the data page header was parsed (seek / short header read) */
-    __CPROVER_assert(!is_mmap && st != CARQUET_OK && st != CARQUET_ERROR_CRC_MISMATCH, "no CRC error before any header was parsed");
+    __CPROVER_assert(st != CARQUET_OK && st != CARQUET_ERROR_CRC_MISMATCH, "no CRC error before any header was parsed");
   }
   pg_free_env(&e);
   CQV_CANARY("page load returns");
